@@ -287,6 +287,7 @@ type FuncResult struct {
 	Notes       []string
 	Inputs      []inputVar
 	Used        []*FuncContract // callee contracts (non-extern) relied upon
+	UnknownIdent string         // the contract names something the function no longer has (see rebind.go)
 }
 
 func newRun(e *Engine, fn *ssa.Function, fc *FuncContract) *Run {
@@ -296,6 +297,10 @@ func newRun(e *Engine, fn *ssa.Function, fc *FuncContract) *Run {
 
 // verifyFunc generates the obligations of one function under contract.
 func (e *Engine) verifyFunc(fc *FuncContract) (res *FuncResult) {
+	return e.verifyFuncAlias(fc, nil)
+}
+
+func (e *Engine) verifyFuncAlias(fc *FuncContract, alias map[string]string) (res *FuncResult) {
 	res = &FuncResult{Key: fc.Key, Pkg: fc.PkgPath}
 	fn := e.findFunc(fc.PkgPath, fc.Key)
 	if fn == nil {
@@ -305,6 +310,19 @@ func (e *Engine) verifyFunc(fc *FuncContract) (res *FuncResult) {
 	}
 	res.Func = fn.String()
 	r := newRun(e, fn, fc)
+	r.localAlias = map[string]string{}
+	for k, v := range alias {
+		r.localAlias[k] = v
+	}
+	// a `params` clause names the parameters by position: inside loop invariants such a name denotes the current value of
+	// the parameter variable, whatever the source calls it now
+	for i, p := range fn.Params {
+		if i < len(fc.Params) && fc.Params[i] != p.Name() && fc.Params[i] != "_" {
+			if _, ok := r.localAlias[fc.Params[i]]; !ok {
+				r.localAlias[fc.Params[i]] = p.Name()
+			}
+		}
+	}
 	defer func() {
 		res.Inlined, res.Externs, res.Natives, res.Noops = keysOf(r.inlined), keysOf(r.externs), keysOf(r.natives), keysOf(r.noops)
 		for fc := range r.usedContracts {
@@ -319,11 +337,13 @@ func (e *Engine) verifyFunc(fc *FuncContract) (res *FuncResult) {
 			if ee, ok := x.(execErr); ok {
 				res.Status = "outside-subset"
 				res.Error = ee.msg
+				res.UnknownIdent = ee.ident
 				return
 			}
 			if se, ok := x.(specErr); ok {
 				res.Status = "outside-subset"
 				res.Error = "spec: " + se.msg
+				res.UnknownIdent = se.ident
 				return
 			}
 			panic(x)
